@@ -25,9 +25,9 @@ structure Item where
   deriving Repr, Inhabited
 
 /-- `tablename_from_specification` -/
-def tablenameFromSpec (spec : Str) : M (Option String) := do
+def tablenameFromSpec (spec : Str) : Except LErr (Option String) := do
   match spec with
-  | [] => raise .indexError
+  | [] => throw (.py .indexError)
   | c :: _ =>
     let base : Option String := match lowerChar c with
       | 'e' => some "element" | 'c' => some "connection" | 'g' => some "generation" | 'p' => some "primary"
@@ -73,7 +73,7 @@ def sortSel (l : List Sel) : List Sel := l.foldr insertSel []
 
 def fileOrder : List String := ["element", "element1", "connection", "primary", "element2", "generation"]
 
-def convertItem (s : Rd) (selIndex : Nat) (it : Item) : M (Option Conv) := do
+def convertItem (s : Rd) (selIndex : Nat) (it : Item) : Except LErr (Option Conv) := do
   let some tablename ← tablenameFromSpec it.spec | return none
   let some t := s.tables.lookup tablename | return none
   let found : Option (Int × Bool) :=
@@ -96,19 +96,19 @@ def convertItem (s : Rd) (selIndex : Nat) (it : Item) : M (Option Conv) := do
       else
         let n : Int := rl.size
         let j := if index < 0 then index + n else index
-        if j < 0 ∨ j ≥ n then raise .indexError else pure ((rl[j.toNat]!) : Int)
+        if j < 0 ∨ j ≥ n then throw (.py .indexError) else pure ((rl[j.toNat]!) : Int)
     | none => pure index
   let shortKw : Str := (match it.spec with | c :: _ => [upperChar c] | [] => []) ++ S "SHORT"
   let ishort ←
     if s.shortTypes.contains shortKw then
       match s.shortIndices.lookup shortKw with
-      | none => raise .keyError
+      | none => throw (.py .keyError)
       | some d => pure (d.lookup index)
     else pure none
   return some { table := tablename, index, ishort, col := it.col, rev := reverse, sel := selIndex }
 
-def orderedSelection (s : Rd) (items : List Item) : M (List (String × List Sel × List Sel)) := do
-  let rec conv : List Item → Nat → M (List Conv)
+def orderedSelection (s : Rd) (items : List Item) : Except LErr (List (String × List Sel × List Sel)) := do
+  let rec conv : List Item → Nat → Except LErr (List Conv)
     | [], _ => pure []
     | it :: r, k => do
       let c ← convertItem s k it
@@ -124,71 +124,77 @@ def orderedSelection (s : Rd) (items : List Item) : M (List (String × List Sel 
 
 /-! ### skip_to_table_* -/
 
-def skipToTableAUTOUGH2 (tablename : String) : M Unit := do
-  let tablechar ← tableChar tablename
-  let s ← get
+def tableCharC (tablename : String) : C Char :=
+  match tablename.toList with
+  | [] => Cu.raise .indexError
+  | c :: _ => pure (upperChar c)
+
+def skipToTableAUTOUGH2 (tablename : String) : C Unit := do
+  let tablechar ← tableCharC tablename
+  let s ← read
+  let index := (← get).index
   let sz : Int := s.short.size
-  let j := if s.index < 0 then s.index + sz else s.index
-  if j < 0 ∨ j ≥ sz then raise .indexError
+  let j := if index < 0 then index + sz else index
+  if j < 0 ∨ j ≥ sz then Cu.raise .indexError
   let isShort := s.short[j.toNat]!
   let (keyword, firstChar) ←
     if isShort then
       match s.shortTypes with
-      | [] => raise .indexError
+      | [] => Cu.raise .indexError
       | st :: _ => match st with
-        | [] => raise .indexError
+        | [] => Cu.raise .indexError
         | c :: _ => pure (tablechar :: S "SHORT", c)
     else pure (List.replicate 5 tablechar, 'E')
-  if tablechar != firstChar then let _ ← skipto [keyword]
-  let _ ← skipto1 "OUTPUT"
-  let _ ← skipto [keyword]
-  skipToBlank
-  skipToNonblank
+  if tablechar != firstChar then let _ ← Cu.skipto [keyword]
+  let _ ← Cu.skipto1 "OUTPUT"
+  let _ ← Cu.skipto [keyword]
+  Cu.skipToBlank
+  Cu.skipToNonblank
 
-/-- `while tname != tablename: skipto('@@@@@'); tname = next_table_TOUGH2()`; an iteration that reads nothing
+/-- `while tname != tablename: Cu.skipto('@@@@@'); tname = next_table_TOUGH2()`; an iteration that reads nothing
     is at end of file and will repeat for ever -/
-def skipToTableTOUGH2 (tablename : String) (lastTablename : Option String) : M Unit := do
+def skipToTableTOUGH2 (tablename : String) (lastTablename : Option String) : C Unit := do
   let tname0 ← match lastTablename with
     | none => do
-      let _ ← skipto1 "@@@@@"
-      skipToNonblank
+      let _ ← Cu.skipto1 "@@@@@"
+      Cu.skipToNonblank
       pure (some "element")
     | some l => pure (some l)
-  let rec loop : Nat → Option String → M Unit
+  let rec loop : Nat → Option String → C Unit
     | 0, _ => throw .diverges
     | f + 1, tname =>
       if tname = some tablename then pure ()
       else do
         let before := (← get).pos.no
-        let _ ← skipto1 "@@@@@"
-        let tn ← nextTableTOUGH2
+        let _ ← Cu.skipto1 "@@@@@"
+        let tn ← Cu.nextTableTOUGH2
         if (← get).pos.no = before && tn != some tablename then throw .diverges
         loop f tn
   loop ((← get).pos.rest.length + 2) tname0
 
-def skipToTablePlus (tablename : String) (lastTablename : Option String) (nelt0 : Int) : M Unit := do
+def skipToTablePlus (tablename : String) (lastTablename : Option String) (nelt0 : Int) : C Unit := do
   let (tname0, nelt0) ← match lastTablename with
     | none => do
-      let _ ← skipto1 "=====" 0
-      skipToNonblank
+      let _ ← Cu.skipto1 "=====" 0
+      Cu.skipToNonblank
       pure (some "element", (0 : Int))
     | some l => pure (some l, nelt0)
-  let rec loop : Nat → Option String → Int → Bool → M Unit
+  let rec loop : Nat → Option String → Int → Bool → C Unit
     | 0, _, _, _ => throw .diverges
     | f + 1, tname, nelt, inside =>
       if tname = some tablename then pure ()
       else do
         let before := (← get).pos.no
         let keyword := if tname = some "primary" then "_____" else "@@@@@"
-        if !(inside && tname = some "primary") then let _ ← skipto1 keyword 0
-        let tn ← nextTablePlus
+        if !(inside && tname = some "primary") then let _ ← Cu.skipto1 keyword 0
+        let tn ← Cu.nextTablePlus
         let (tn', nelt') := if tn = some "element" then (some ("element" ++ toString (nelt + 1)), nelt + 1) else (tn, nelt)
         if (← get).pos.no = before && tn' != some tablename then throw .diverges
         loop f tn' nelt' false
   loop ((← get).pos.rest.length + 2) tname0 nelt0 lastTablename.isSome
 
-def skipToTable (tablename : String) (lastTablename : Option String) (nelt : Int) : M Unit := do
-  match (← get).fam with
+def skipToTable (tablename : String) (lastTablename : Option String) (nelt : Int) : C Unit := do
+  match (← read).fam with
   | .autough2 => skipToTableAUTOUGH2 tablename
   | .toughplus => skipToTablePlus tablename lastTablename nelt
   | _ => skipToTableTOUGH2 tablename lastTablename
@@ -233,39 +239,34 @@ def scanSel (readVals : Str → Except Exc (List FVal)) (colOf : Str → Option 
       | .ok (more, rest') => .ok ((si, v) :: more, rest')
 
 /-- one table at one result position -/
-def historyTable (tname : String) (ts : List Sel) : M (List (Nat × FVal)) := do
-  let t ← getTable tname
-  let expected ← tableExpectedFloats tname t.cols
-  let _ ← skipToResultsLine expected
-  let line ← readline
+def historyTable (tname : String) (ts : List Sel) : C (List (Nat × FVal)) := do
+  let t ← Cu.getTable tname
+  let expected ← Cu.tableExpectedFloats tname t.cols
+  let _ ← Cu.skipToResultsLine expected
+  let line ← Cu.readline
   let s ← get
-  let (hits, rest') ← liftE (scanSel (readTableLineOf s.fam t) (colIdx t.cols) ts 0 line s.pos.rest)
+  let (hits, rest') ← Cu.liftE (scanSel (readTableLineOf (← read).fam t) (colIdx t.cols) ts 0 line s.pos.rest)
   set { s with pos := ⟨s.pos.no + (s.pos.rest.length - rest'.length), rest'⟩ }
   return hits
 
 /-- number of (TOUGH+) element tables up to `last` in the file order of the tables present, minus one -/
-def neltUpTo (fileTables : List String) (last : String) : M Int := do
+def neltUpTo (fileTables : List String) (last : String) : C Int := do
   match fileTables.idxOf? last with
-  | none => raise .valueError
+  | none => Cu.raise .valueError
   | some i => return (((fileTables.take (i + 1)).filter (fun t => t.startsWith "element")).length : Int) - 1
 
-/-- `t2listing.history(selection, short)`.  `none` is Python's `None` (no valid specification);
-    otherwise one series per selection item with the flag `len(h) == num_fulltimes` that decides which
-    time array is paired with it. -/
-def history (items : List Item) (short : Bool) : M (Option (List (Bool × List FVal))) := do
-  let s0 ← get
-  let oldIndex := s0.index
-  let tsel ← orderedSelection s0 items
-  if tsel.isEmpty then return none
-  seek0
+/-- the loop of history() over the result positions (after `self.rewind()`): the values appended, each with the
+    position in the selection it belongs to -/
+def historyBody (s0 : Rd) (tsel : List (String × List Sel × List Sel)) (short : Bool) : C (List (Nat × FVal)) := do
+  Cu.seek0
   modify fun s => { s with index := -1 }
   let fileTables := fileOrder.filter (fun tn => (s0.tables.lookup tn).isSome)
-  let rec tablesAt : List (String × List Sel × List Sel) → Bool → Option String → Int → M (List (Nat × FVal))
+  let rec tablesAt : List (String × List Sel × List Sel) → Bool → Option String → Int → C (List (Nat × FVal))
     | [], _, _, _ => pure []
     | (tname, ts, tshort) :: more, isShort, last, nelt => do
       let tablename : Str := if isShort then (match tname.toList with | c :: _ => upperChar c :: S "SHORT" | [] => S "SHORT") else tname.toList
       let hits ←
-        if !(isShort && !((← get).shortTypes.contains tablename)) then do
+        if !(isShort && !(s0.shortTypes.contains tablename)) then do
           let nelt' ← match last with
             | some l => neltUpTo fileTables l
             | none => pure nelt
@@ -274,21 +275,36 @@ def history (items : List Item) (short : Bool) : M (Option (List (Bool × List F
         else pure []
       let rest ← tablesAt more isShort (some tname) nelt
       pure (hits ++ rest)
-  let rec positions : List (Pos × Bool) → Nat → M (List (Nat × FVal))
+  let rec positions : List (Pos × Bool) → Nat → C (List (Nat × FVal))
     | [], _ => pure []
     | (p, isShort) :: more, ipos => do
-      seek p
+      Cu.seek p
       modify fun s => { s with index := ipos }
       let hits ← if !(isShort && !short) then tablesAt tsel isShort none (-1) else pure []
       let rest ← positions more (ipos + 1)
       pure (hits ++ rest)
-  let hits ← positions (s0.allpos.toList.zip s0.short.toList) 0
-  modify fun s => { s with index := oldIndex }
-  let nfull := s0.fulltimes.size
-  let series := (List.range items.length).map fun k =>
-    let h := (hits.filter (·.1 = k)).map (·.2)
-    (h.length == nfull, h)
-  return some series
+  positions (s0.allpos.toList.zip s0.short.toList) 0
+
+/-- `t2listing.history(selection, short)`.  `none` is Python's `None` (no valid specification);
+    otherwise one series per selection item with the flag `len(h) == num_fulltimes` that decides which
+    time array is paired with it.  `old_index = self.index … self._index = old_index` brackets the loop. -/
+def historyC (items : List Item) (short : Bool) : C (Option (List (Bool × List FVal))) := fun env c =>
+  match orderedSelection env items with
+  | .error e => .error e
+  | .ok tsel =>
+    if tsel.isEmpty then .ok (none, c)
+    else
+      match historyBody env tsel short env c with
+      | .error e => .error e
+      | .ok (hits, c1) =>
+        let nfull := env.fulltimes.size
+        .ok (some ((List.range items.length).map fun k =>
+              let h := (hits.filter (·.1 = k)).map (·.2)
+              (h.length == nfull, h)),
+             { c1 with index := c.index })        -- self._index = old_index
+
+/-- `t2listing.history(selection, short)` on the reader: a cursor computation, lifted -/
+def history (items : List Item) (short : Bool) : M (Option (List (Bool × List FVal))) := liftC (historyC items short)
 
 /-! ### the navigation instance of the whole-file model -/
 
